@@ -94,3 +94,135 @@ var properties = map[string]propSpec{
 		Assumptions: stdAssumptions,
 	},
 }
+
+func init() {
+	properties["C05"] = propSpec{
+		Level: "exploration",
+		Plan: []planEntry{
+			{Engine: "A", Scenario: "election", Quick: 30, Thorough: 400},
+			{Engine: "A", Scenario: "general", Quick: 10, Thorough: 100},
+		},
+		Rule:       "seeded live-cluster runs with an election-heavy nemesis and hard crashes at the vote hooks (before persisting, after persisting, before the reply leaves); every vote reply is compared with the voter's state and its term file at that instant, every restart with what had been acknowledged; non-trivial if at least 8 votes were granted, checked against disk, and at least 2 leaders were elected after bootstrap; distinct = distinct abstract trace",
+		Nontrivial: all(ge("grants-checked-against-disk", 8), ge("leaders-elected", 3)),
+		MinQuick:   20, MinThorough: 200,
+		Counters:    []string{"vote-requests", "votes-granted", "grants-checked-against-disk", "term-vote-persists", "crashes", "crash-restarts", "graceful-restarts", "elections", "leaders-elected", "rpcs"},
+		Prefixes:    []string{"votes-refused:", "crash@"},
+		Assumptions: stdAssumptions,
+	}
+	properties["C06"] = propSpec{
+		Level: "exploration",
+		Plan: []planEntry{
+			{Engine: "A", Scenario: "member", Quick: 24, Thorough: 300},
+			{Engine: "A", Scenario: "general", Quick: 12, Thorough: 150},
+			{Engine: "A", Scenario: "load", Quick: 6, Thorough: 60},
+		},
+		Rule:       "seeded live-cluster runs through membership changes (1->2->3 voters and back, non-voters present, leader demoting / removing itself) with partitions, stalls and crashes; at every leader commit advance the voters of its latest configuration holding the entry inside their durable frontier (flush events) are counted; non-trivial if at least 100 commit advances were checked under at least 2 different voter-set sizes; distinct = distinct abstract trace",
+		Nontrivial: func(st map[string]int64) bool {
+			sizes := 0
+			for k, v := range st {
+				if len(k) > 25 && k[:25] == "durability-checks-voters=" && v > 0 {
+					sizes++
+				}
+			}
+			return st["durability-checks"] >= 100 && sizes >= 2
+		},
+		MinQuick: 16, MinThorough: 150,
+		Counters:    []string{"durability-checks", "durability-exact-majority", "commits-by-non-voting-leader", "flushes", "append-acks", "acks-beyond-durable-frontier", "config-entries", "leader-self-demotions-committed", "crashes"},
+		Prefixes:    []string{"durability-checks-voters="},
+		Assumptions: stdAssumptions,
+	}
+	properties["C08"] = propSpec{
+		Level: "exploration",
+		Plan: []planEntry{
+			{Engine: "A", Scenario: "member", Quick: 30, Thorough: 400},
+			{Engine: "A", Scenario: "everything", Quick: 8, Thorough: 100},
+		},
+		Rule:       "seeded live-cluster runs submitting random legal and illegal ChangeConfig requests (add non-voter +/- promote, promote, demote, remove, force-remove, several actions at once, direct flips and drops) with leader isolation / transfer / crash while actions are pending; non-trivial if at least 4 configuration entries were chained to a predecessor; distinct = distinct abstract trace",
+		Nontrivial: all(ge("config-chain-links", 4)),
+		MinQuick:   20, MinThorough: 200,
+		Counters:     []string{"config-entries", "config-chain-links", "config-changes", "config-commits", "leaders-elected", "truncations", "crashes", "transfers-succeeded"},
+		Prefixes:     []string{"config-actions:", "admin:changeconfig:"},
+		SampleTopics: []string{"config-chain"},
+		Assumptions:  stdAssumptions,
+	}
+	properties["C10"] = propSpec{
+		Level: "fault_enumeration",
+		Plan: []planEntry{
+			{Engine: "A", Scenario: "crashy", Quick: 36, Thorough: 400},
+			{Engine: "A", Scenario: "general", Quick: 8, Thorough: 100},
+		},
+		Rule:       "seeded live-cluster runs with hard crashes (cut off the network, copy the storage directory = kill -9 image, restart on the copy) armed at the storage hook points (vote before/after persist, append, segment flush phases, roll-over, truncation, compaction, snapshot publish, install stored / log handled, log reset, segment creation, reply); each restart is compared with what the node had acknowledged; non-trivial if at least 2 crash images were reopened; distinct = distinct abstract trace (includes the crash points)",
+		Nontrivial: all(ge("crash-restarts", 2)),
+		MinQuick:   20, MinThorough: 200,
+		Counters:     []string{"crashes", "crash-restarts", "graceful-restarts", "wiped-restarts", "incarnations", "append-acks", "votes-granted", "snapshots-taken", "compactions", "log-resets"},
+		Prefixes:     []string{"crash@", "snapshot-installs:"},
+		SampleTopics: []string{"crash-restart"},
+		Assumptions:  stdAssumptions,
+	}
+	properties["C11"] = propSpec{
+		Level: "exploration",
+		Plan: []planEntry{
+			{Engine: "A", Scenario: "member", Quick: 36, Thorough: 450},
+		},
+		Rule:       "seeded live-cluster runs with membership churn, timeout-now requests injected at wire level at arbitrary nodes (incl. non-voters and nodes being promoted / demoted), leader self-demotion / removal under load; non-trivial if at least 3 membership actions were started and at least one timeout-now was delivered; distinct = distinct abstract trace",
+		Nontrivial: func(st map[string]int64) bool {
+			var acts, tn int64
+			for k, v := range st {
+				if len(k) > 15 && k[:15] == "config-actions:" {
+					acts += v
+				}
+				if len(k) > 12 && k[:12] == "timeout-now:" {
+					tn += v
+				}
+			}
+			return acts >= 3 && tn >= 1
+		},
+		MinQuick: 20, MinThorough: 200,
+		Counters:     []string{"rounds-completed", "leader-self-demotions-committed", "self-shutdowns-on-removal", "elections", "config-entries", "serve-exits-node-removed"},
+		Prefixes:     []string{"config-actions:", "timeout-now:"},
+		SampleTopics: []string{"promotion"},
+		Assumptions:  stdAssumptions,
+	}
+	properties["C16"] = propSpec{
+		Level: "exploration",
+		Plan: []planEntry{
+			{Engine: "A", Scenario: "transfer", Quick: 36, Thorough: 450},
+		},
+		Rule:       "seeded live-cluster runs issuing leadership transfers (target given / any / invalid / non-voter / lagging) with stalls, one-way cuts, connection breaks and concurrent client and membership tasks; non-trivial if at least 3 transfers chose a target; distinct = distinct abstract trace",
+		Nontrivial: all(ge("transfer-targets-chosen", 3)),
+		MinQuick:   20, MinThorough: 200,
+		Counters:     []string{"transfer-targets-chosen", "transfers-succeeded", "transfers-failed", "timeout-now-delivered", "leader-appends", "leaders-elected"},
+		Prefixes:     []string{"admin:transfer:", "timeout-now:"},
+		SampleTopics: []string{"transfer"},
+		Assumptions:  stdAssumptions,
+	}
+	properties["C17"] = propSpec{
+		Level: "exploration",
+		Plan: []planEntry{
+			{Engine: "A", Scenario: "general", Quick: 16, Thorough: 200},
+			{Engine: "A", Scenario: "election", Quick: 10, Thorough: 120},
+			{Engine: "A", Scenario: "member", Quick: 8, Thorough: 100},
+		},
+		Rule:       "restated as bounded progress: seeded fault histories (partitions, crashes, restarts, membership churn, removed nodes that keep campaigning) followed by heal; within 400 ticks (tick = heartbeat timeout / 4) one leader that every live member follows, a fresh update committed, every live member's state machine caught up, membership stable; a miss is extended 4x: still stuck = violation, late = inconclusive; plus leader stickiness on every vote request handled while a leader is known; non-trivial if the run had at least 8 faults and reached the convergence phase; distinct = distinct abstract trace",
+		Nontrivial: all(ge("faults", 8)),
+		MinQuick:   20, MinThorough: 200,
+		Counters:    []string{"converged", "convergence-ticks", "faults", "vote-requests-while-leader-known", "elections", "leaders-elected", "crashes"},
+		Prefixes:    []string{"fault:"},
+		Par:         6,
+		Assumptions: append([]string{"liveness is restated as bounded progress on a logical tick clock; no finite run decides 'eventually'"}, stdAssumptions...),
+	}
+	properties["C19"] = propSpec{
+		Level: "exploration",
+		Plan: []planEntry{
+			{Engine: "A", Scenario: "general", Quick: 16, Thorough: 200},
+			{Engine: "A", Scenario: "snapshot", Quick: 12, Thorough: 150},
+			{Engine: "A", Scenario: "member", Quick: 6, Thorough: 80},
+		},
+		Rule:       "seeded live-cluster runs; GetInfo polled on every node twice per heartbeat timeout (public API) and the same inequalities asserted on the node's own fields at every step of its main loop; non-trivial if at least 100 status reports were compared pairwise and at least 1000 steps were checked; distinct = distinct abstract trace",
+		Nontrivial: all(ge("status-report-pairs", 100), ge("steps", 1000)),
+		MinQuick:   20, MinThorough: 200,
+		Counters:    []string{"status-reports", "status-report-pairs", "steps", "commit-advances", "truncations", "log-resets", "compactions", "config-changes"},
+		Prefixes:    []string{"snapshot-installs:"},
+		Assumptions: stdAssumptions,
+	}
+}
